@@ -2,8 +2,11 @@
 import ast
 import copy
 
+import sympy as sp
+
 from vcheck import rules
-from vcheck.core import PyRepo, AnalysisError, call_name, dotted_name, kwarg, norm, walk_no_nested
+from vcheck.cfg import func_params
+from vcheck.core import PyRepo, AnalysisError, FuncInfo, call_name, dotted_name, kwarg, norm, walk_no_nested
 from vcheck.nullness import Nullness
 from vcheck.rules import cfg_of
 
@@ -14,8 +17,11 @@ MANIFEST = dict(
          "iterable in role. Nullness analysis (interprocedural) decides that a total that may be None never reaches an ordering "
          "comparison or arithmetic without a dominating None test. Parallel map: the result is list(...) over the executor's ordered "
          "map inside its with-block; unordered collection APIs are forbidden. Key-value partition: every store to the key array is "
-         "paired with the same-index store to the value array and the skeleton equals the plain partition. Chunking: the divmod "
-         "section table, cumulative division points and [i*nper,(i+1)*nper) slices are checked against their documented forms.",
+         "paired with the same-index store to the value array and the skeleton equals the plain partition. Chunking: the section "
+         "sizes, division points and (start, end) table of isplit are evaluated abstractly (runs of equal values, their cumulative sum, offsets "
+         "into it) and compared as integer terms with r sections of q+1 then nchunks-r of q; the list splitarray returns is read as a "
+         "sequence (count, i-th element) whichever way it is built and compared with var[i*nper:(i+1)*nper], count ceil(size/nper). Helpers "
+         "of the package are followed (yield from / for over a wrapping generator, helpers that return a possibly-None total, closures).",
     note="Not decided: that the partition-exchange sort sorts (a proof obligation about the algorithm), process scheduling (delegated "
          "to Executor.map's documented ordering). Trusted: concurrent.futures.Executor.map order, divmod identity.",
     technique="static analysis: CFG path rules on loop bodies, interprocedural nullness dataflow, who-may-call, sibling skeleton comparison",
@@ -24,7 +30,10 @@ MANIFEST = dict(
 
 # rules that keep their verdict however the code is laid out (decided by term equality, effect analysis or dominance over
 # resolved calls); every other rule of this check is a template rule (vcheck.core.Check.obt)
-SEMANTIC = ('R20.gen', 'R20.isplit', 'R20.null', 'R20.pmap')
+SEMANTIC = ('R20.gen', 'R20.isplit', 'R20.null', 'R20.pmap',
+            # decided by term equality on the evaluated element / range terms; they give "not recognised" themselves
+            'R20.split::esutil.numpy_util.splitarray::consecutive-fixed-size-slices', 'R20.split::esutil.numpy_util.splitarray::chunk-count-is-ceil',
+            'R20.sort::esutil.algorithm._quicksort::recursion', 'R20.sort::esutil.algorithm._quicksort_keyvalue::recursion')
 
 
 def run(chk):
@@ -42,97 +51,484 @@ def run(chk):
 
 
 # ---------------------------------------------------------------------------
+def _parent_map(root):
+    pm = {}
+    for p in ast.walk(root):
+        for c in ast.iter_child_nodes(p):
+            pm[id(c)] = p
+    return pm
+
+
+def _callee(repo, fi, call):
+    """FuncInfo of a call that resolves to a function of the package, else None"""
+    d = dotted_name(call.func)
+    if not d:
+        return None
+    full = repo.resolve_name(fi.module, d)
+    return repo.func(full) if repo.has(full) else None
+
+
+def _role(callee, call, name):
+    """parameter of `callee` that receives the bare name `name` in `call` (None: not passed / not resolvable)"""
+    params = [p for p in callee.params if not p.startswith("*")]
+    for i, a in enumerate(call.args):
+        if isinstance(a, ast.Starred):
+            return None
+        if isinstance(a, ast.Name) and a.id == name:
+            return params[i] if i < len(params) else None
+    for k in call.keywords:
+        if k.arg and isinstance(k.value, ast.Name) and k.value.id == name:
+            return k.arg if k.arg in params else None
+    return None
+
+
+_HARMLESS = ("len", "isinstance", "hasattr", "type", "id", "callable")
+_LAZY = ("iter", "enumerate", "zip")
+
+
+def _item_source(a, it, fn=None):
+    """how the for loop `a` draws from the iterable `it`: (kind, item name) with kind 'direct' | 'enum' | None.
+    Temporaries are followed (fn given) and iter(x) is x"""
+    c = rules.expand(a.iter, fn) if fn is not None else a.iter
+    while isinstance(c, ast.Call) and isinstance(c.func, ast.Name) and c.func.id == "iter" and len(c.args) == 1 and not c.keywords:
+        c = c.args[0]
+    if isinstance(c, ast.Name) and c.id == it:
+        return "direct", (a.target.id if isinstance(a.target, ast.Name) else None)
+    if isinstance(c, ast.Call) and isinstance(c.func, ast.Name) and c.func.id == "enumerate" and c.args:
+        c0 = c.args[0]
+        while isinstance(c0, ast.Call) and isinstance(c0.func, ast.Name) and c0.func.id == "iter" and len(c0.args) == 1 and not c0.keywords:
+            c0 = c0.args[0]
+        c.args[0] = c0
+    if isinstance(c, ast.Call) and isinstance(c.func, ast.Name) and c.func.id == "enumerate" and c.args and isinstance(c.args[0], ast.Name) \
+            and c.args[0].id == it and len(c.args) + len(c.keywords) <= 2 and all(k.arg == "start" for k in c.keywords):
+        t = a.target
+        if isinstance(t, ast.Tuple) and len(t.elts) == 2 and isinstance(t.elts[1], ast.Name):
+            return "enum", t.elts[1].id
+        return "enum", None
+    return None, None
+
+
+def _delegating_loop(repo, fi, a, it):
+    """`for x in helper(.., it, ..)` over a generator of the package that receives the iterable: (helper, role) or None"""
+    c = a.iter
+    if isinstance(c, ast.Call):
+        g = _callee(repo, fi, c)
+        if g is not None and rules.is_generator(g.node):
+            role = _role(g, c, it)
+            if role is not None:
+                return g, role
+    return None
+
+
+def _has_yield(node):
+    return any(isinstance(x, (ast.Yield, ast.YieldFrom)) for x in walk_no_nested(node))
+
+
+def _same_stream(st, it):
+    """`it = iter(it)` / `it = it`"""
+    if not (isinstance(st, ast.Assign) and len(st.targets) == 1 and isinstance(st.targets[0], ast.Name) and st.targets[0].id == it):
+        return False
+    v = st.value
+    if isinstance(v, ast.Call) and isinstance(v.func, ast.Name) and v.func.id == "iter" and len(v.args) == 1 and not v.keywords:
+        v = v.args[0]
+    return isinstance(v, ast.Name) and v.id == it
+
+
+def _iterable_uses(repo, fi, it, seen=(), alias=False):
+    """classify every use of the parameter `it` in fi: (bad, unknown) lists of texts.  Allowed: the item loops (directly or through
+    enumerate), len() and type tests, `yield from` delegation, and package helpers that themselves only do such things"""
+    fn = fi.node
+    pm = _parent_map(fn)
+    bad, unknown = [], []
+    own = {id(x) for x in walk_no_nested(fn)}
+    for x in ast.walk(fn):
+        if isinstance(x, ast.arg) or not (isinstance(x, ast.Name) and x.id == it):
+            continue
+        if id(x) not in own:
+            unknown.append("use inside a nested function (line %s)" % x.lineno)
+            continue
+        if not isinstance(x.ctx, ast.Load):
+            p = pm.get(id(x))
+            if not (alias and isinstance(p, ast.Assign)) and not _same_stream(p, it):
+                unknown.append("re-bound: `%s`" % norm(p))
+            continue
+        p = pm.get(id(x))
+        # t = iterable / t = iter(iterable), t bound once: what holds for the uses of t
+        q_, qp = x, p
+        if isinstance(qp, ast.Call) and isinstance(qp.func, ast.Name) and qp.func.id == "iter" and len(qp.args) == 1 and not qp.keywords:
+            q_, qp = qp, pm.get(id(qp))
+        if _same_stream(qp, it):
+            continue                    # iterable = iter(iterable): the same stream under the same name
+        if isinstance(qp, ast.Assign) and qp.value is q_ and len(qp.targets) == 1 and isinstance(qp.targets[0], ast.Name) \
+                and qp.targets[0].id in rules.single_defs(fn) and len(seen) < 4:
+            b2, u2 = _iterable_uses(repo, fi, qp.targets[0].id, seen + ((fi.qualname, qp.targets[0].id),), alias=True)
+            bad += b2
+            unknown += u2
+            continue
+        if isinstance(p, ast.Call) and isinstance(p.func, ast.Name) and p.func.id == "enumerate" and isinstance(pm.get(id(p)), ast.For) and pm[id(p)].iter is p:
+            x, p = p, pm[id(p)]
+        if isinstance(p, ast.Call) and isinstance(p.func, ast.Name) and p.func.id == "iter" and len(p.args) == 1 and isinstance(pm.get(id(p)), ast.For) \
+                and pm[id(p)].iter is p:
+            x, p = p, pm[id(p)]
+        if isinstance(p, ast.For) and p.iter is x:
+            if _has_yield(p):
+                continue
+            bad.append("for ... in %s without yielding" % norm(x))
+            continue
+        if isinstance(p, ast.YieldFrom):
+            continue
+        if isinstance(p, ast.Compare):
+            continue
+        if isinstance(p, ast.keyword):
+            p = pm.get(id(p))
+        if isinstance(p, ast.Call) and x is not p.func:
+            if isinstance(p.func, ast.Name) and p.func.id in _HARMLESS:
+                continue
+            g = _callee(repo, fi, p)
+            if g is None:
+                # a lazy wrapper does not consume anything by itself: what happens to it is not followed (no verdict)
+                (unknown if (isinstance(p.func, ast.Name) and p.func.id in _LAZY) else bad).append(norm(p))
+                continue
+            role = _role(g, p, it)
+            if role is None or (g.qualname, role) in seen or len(seen) > 4:
+                unknown.append(norm(p))
+                continue
+            if rules.is_generator(g.node):
+                gp = pm.get(id(p))
+                if isinstance(gp, ast.YieldFrom) or (isinstance(gp, ast.For) and gp.iter is p and _has_yield(gp)):
+                    continue            # judged as a delegated item loop
+                unknown.append("%s (a generator that is not delegated to with `yield from`)" % norm(p))
+                continue
+            b2, u2 = _iterable_uses(repo, g, role, seen + ((g.qualname, role),))
+            bad += ["%s: %s" % (g.name, t) for t in b2]
+            unknown += ["%s: %s" % (g.name, t) for t in u2]
+            gpm = _parent_map(g.node)
+            for r in walk_no_nested(g.node):
+                if isinstance(r, ast.Return) and r.value is not None:
+                    for n in ast.walk(r.value):
+                        gp = gpm.get(id(n))
+                        if isinstance(n, ast.Name) and n.id == role and not (isinstance(gp, ast.Call) and isinstance(gp.func, ast.Name) and gp.func.id in _HARMLESS):
+                            unknown.append("%s hands the iterable back" % g.name)
+            continue
+        unknown.append("`%s`" % norm(p))
+    return bad, unknown
+
+
+def _yield_paths(stmts):
+    """(fall, done): yield counts over the paths through a statement list that reach its end / that leave it through
+    continue, break or return (loops inside count as 0 or many -> 99; paths that raise are not counted)"""
+    fall, done = {0}, set()
+    for s in stmts:
+        if isinstance(s, ast.If):
+            f1, d1 = _yield_paths(s.body)
+            f2, d2 = _yield_paths(s.orelse) if s.orelse else ({0}, set())
+            t = sum(1 for y in ast.walk(s.test) if isinstance(y, (ast.Yield, ast.YieldFrom)))
+            f, d = {x + t for x in f1 | f2}, {x + t for x in d1 | d2}
+        elif isinstance(s, (ast.For, ast.While)):
+            f, d = ({0, 99} if _has_yield(s) else {0}), set()
+        elif isinstance(s, ast.Try):
+            f, d = _yield_paths(s.body)
+            for h in s.handlers:
+                fh, dh = _yield_paths(h.body)
+                f, d = f | fh, d | dh
+            if s.orelse:
+                fo, do = _yield_paths(s.orelse)
+                d = d | {a + b for a in f for b in do}
+                f = {a + b for a in f for b in fo}
+            if s.finalbody:
+                ff, df = _yield_paths(s.finalbody)
+                d = {a + b for a in d for b in ff} | {a + b for a in f for b in df}
+                f = {a + b for a in f for b in ff}
+        elif isinstance(s, ast.With):
+            f, d = _yield_paths(s.body)
+        elif isinstance(s, (ast.Continue, ast.Break, ast.Return)):
+            f, d = set(), {0}
+        elif isinstance(s, ast.Raise):
+            f, d = set(), set()
+        elif isinstance(s, (ast.FunctionDef, ast.AsyncFunctionDef, ast.ClassDef)):
+            f, d = {0}, set()
+        else:
+            f, d = {sum(1 for y in walk_no_nested(s) if isinstance(y, (ast.Yield, ast.YieldFrom)))}, set()
+        done |= {a + b for a in fall for b in d}
+        fall = {a + b for a in fall for b in f}
+        if not fall:
+            break
+    return fall, done
+
+
+def _early_exits(loop):
+    """break statements that leave `loop`, and returns anywhere inside it"""
+    out = []
+
+    def walk(stmts, inner):
+        for s in stmts:
+            if isinstance(s, (ast.FunctionDef, ast.AsyncFunctionDef, ast.ClassDef)):
+                continue
+            if isinstance(s, ast.Break) and not inner:
+                out.append(s)
+            elif isinstance(s, ast.Return):
+                out.append(s)
+            for f in ("body", "orelse", "finalbody"):
+                if isinstance(getattr(s, f, None), list):
+                    walk(getattr(s, f), inner or isinstance(s, (ast.For, ast.While)))
+            for h in getattr(s, "handlers", []):
+                walk(h.body, inner)
+    walk(loop.body, False)
+    return out
+
+
+def _pos(n):
+    return (getattr(n, "lineno", 0), getattr(n, "col_offset", 0))
+
+
+def _generator_rules(chk, repo, q, fi, it, via="", seen=()):
+    """the item-loop rules on generator fi whose parameter `it` is the wrapped iterable; q: the public wrapper the instances belong to"""
+    fn = fi.node
+    pm = _parent_map(fn)
+    tag = ("%s/" % fi.name) if via else ""
+    yields = [x for x in walk_no_nested(fn) if isinstance(x, (ast.Yield, ast.YieldFrom))]
+    chk.ob("R20.gen", q + "::is-generator" + via, len(yields) >= 1, fi.where(), "%s is a generator (lazy evaluation)" % fi.name)
+    loops = [x for x in walk_no_nested(fn) if isinstance(x, ast.For) and _has_yield(x)]
+    # only outermost yielding for-loops are item loops
+    loops = [a for a in loops if not any(b is not a and any(c is a for c in walk_no_nested(b)) for b in loops)]
+    covered = set()
+    for a in loops:
+        lk = tag + norm(a.iter)
+        kind, obj = _item_source(a, it, fn)
+        dl = _delegating_loop(repo, fi, a, it) if kind is None else None
+        if dl is not None and (dl[0].qualname, dl[1]) not in seen and len(seen) < 3 and isinstance(a.target, ast.Name):
+            # the items come from a package generator that wraps the iterable: that generator is judged by the same rules
+            kind = "delegate"
+            _generator_rules(chk, repo, q, dl[0], dl[1], via=via + "::via-" + dl[0].name, seen=seen + ((dl[0].qualname, dl[1]),))
+        chk.ob("R20.gen", "%s::iterates-the-iterable-directly::L%s" % (q, lk), kind is not None, fi.where(a),
+               "the loop iterates `%s` itself (found `%s`): nothing is materialised or reordered first" % (it, norm(a.iter)))
+        if kind in ("direct", "delegate") and obj is None:
+            obj = norm(a.target)
+        fall, done = _yield_paths(a.body)
+        counts = fall | done
+        chk.ob("R20.gen", "%s::exactly-one-yield-per-item::L%s" % (q, lk), counts == {1}, fi.where(a),
+               "every path through the loop body yields exactly once (yield counts over paths: %s)" % sorted(counts))
+        ys = [x for s in a.body for x in walk_no_nested(s) if isinstance(x, (ast.Yield, ast.YieldFrom))]
+        covered |= {id(y) for y in ys}
+        chk.ob("R20.gen", "%s::yields-the-loop-item::L%s" % (q, lk),
+               bool(ys) and obj is not None and all(isinstance(y, ast.Yield) and y.value is not None and norm(y.value) == obj for y in ys), fi.where(a),
+               "the yielded value is the loop's own item `%s`" % obj)
+        early = _early_exits(a)
+        chk.ob("R20.gen", "%s::no-early-exit::L%s" % (q, lk), not early, fi.where(a), "no break out of the item loop and no return inside it (no item is dropped)")
+        # the loop item is neither re-bound nor handed to anything before it is yielded
+        first = min((_pos(y) for y in ys), default=(0, 0))
+        touched = [norm(pm.get(id(x), x)) for s in a.body for x in walk_no_nested(s)
+                   if isinstance(x, ast.Name) and x.id == obj and _pos(x) < first]
+        chk.ob("R20.gen", "%s::yield-first::L%s" % (q, lk), bool(ys) and not touched, fi.where(a),
+               "the item is yielded before any bookkeeping touches it (%s)" % touched)
+    # every other yield must be a delegation `yield from <the iterable>` / `yield from helper(.., iterable, ..)`
+    extra, unrec = [], []
+    for y in yields:
+        if id(y) in covered:
+            continue
+        if any(isinstance(p, ast.While) for p in _ancestors(pm, y)):
+            unrec.append(norm(y))
+            continue
+        if isinstance(y, ast.YieldFrom):
+            v = y.value
+            if isinstance(v, ast.Name) and v.id == it:
+                continue
+            g = _callee(repo, fi, v) if isinstance(v, ast.Call) else None
+            role = _role(g, v, it) if g is not None else None
+            if g is not None and role is not None and rules.is_generator(g.node) and (g.qualname, role) not in seen and len(seen) < 3:
+                _generator_rules(chk, repo, q, g, role, via=via + "::via-" + g.name, seen=seen + ((g.qualname, role),))
+                continue
+        extra.append(norm(y))
+    chk.ob("R20.gen", q + "::no-yield-outside-the-loops" + via, None if (unrec and not extra) else not extra, fi.where(),
+           "no yield outside the item loops and the delegated item loops (no extra items) %s" % (extra + unrec))
+    bad, unknown = _iterable_uses(repo, fi, it)
+    chk.ob("R20.gen", q + "::iterable-not-consumed-elsewhere" + via, False if bad else (None if unknown else True), fi.where(),
+           "the iterable is handed to nothing but len() and the item loop (%s)" % (bad + unknown))
+
+
+def _ancestors(pm, n):
+    p = pm.get(id(n))
+    while p is not None:
+        yield p
+        p = pm.get(id(p))
+
+
 def generators(chk, repo):
     for q in ("esutil.pbar._pbar_full", "esutil.pbar.sbar"):
         fi = repo.func(q)
         chk.analysed_unit(q)
-        fn = fi.node
-        it = fi.params[0]
-        cfg = cfg_of(fi)
-        loops = [n for n in cfg.nodes if n.kind == "loop" and isinstance(n.ast, ast.For)]
-        yields = [x for x in walk_no_nested(fn) if isinstance(x, (ast.Yield, ast.YieldFrom))]
-        chk.ob("R20.gen", q + "::is-generator", len(yields) >= 1, fi.where(), "wrapper is a generator (lazy evaluation)")
-        in_loops = []
-        for lp in loops:
-            a = lp.ast
-            direct = norm(a.iter) == it
-            enum = isinstance(a.iter, ast.Call) and call_name(a.iter) == "enumerate" and len(a.iter.args) == 1 and norm(a.iter.args[0]) == it
-            chk.ob("R20.gen", "%s::iterates-the-iterable-directly::L%s" % (q, _loop_key(a)), direct or enum, fi.where(a),
-                   "the loop iterates `%s` itself (found `%s`): nothing is materialised or reordered first" % (it, norm(a.iter)))
-            obj = norm(a.target) if direct else (norm(a.target.elts[1]) if enum and isinstance(a.target, ast.Tuple) else None)
-            # path rule: every path through the body yields exactly once, the item
-            counts = _yield_counts(a.body, obj)
-            chk.ob("R20.gen", "%s::exactly-one-yield-per-item::L%s" % (q, _loop_key(a)), counts == {1}, fi.where(a),
-                   "every path through the loop body yields exactly once (yield counts over paths: %s)" % sorted(counts))
-            ys = [x for x in ast.walk(a) if isinstance(x, ast.Yield)]
-            in_loops += ys
-            chk.ob("R20.gen", "%s::yields-the-loop-item::L%s" % (q, _loop_key(a)), bool(ys) and all(y.value is not None and norm(y.value) == obj for y in ys), fi.where(a),
-                   "the yielded value is the loop's own item `%s`" % obj)
-            early = [x for x in ast.walk(a) if isinstance(x, (ast.Break, ast.Return))]
-            chk.ob("R20.gen", "%s::no-early-exit::L%s" % (q, _loop_key(a)), not early, fi.where(a), "no break/return inside the loop (no item is dropped)")
-            # the loop item is not re-bound before the yield
-            first = a.body[0] if a.body else None
-            chk.ob("R20.gen", "%s::yield-first::L%s" % (q, _loop_key(a)), isinstance(first, ast.Expr) and isinstance(first.value, ast.Yield), fi.where(a),
-                   "the item is yielded before any bookkeeping touches it")
-        chk.ob("R20.gen", q + "::no-yield-outside-the-loops", len(in_loops) == len(yields), fi.where(), "no yield outside the item loops (no extra items)")
-        # the iterable is not consumed by anything else (list(), sorted(), tuple(), iter+next) -- len() is allowed
-        bad = []
-        for x in walk_no_nested(fn):
-            if isinstance(x, ast.Call) and call_name(x) not in ("len", "enumerate") and any(isinstance(a, ast.Name) and a.id == it for a in x.args):
-                bad.append(norm(x))
-        chk.ob("R20.gen", q + "::iterable-not-consumed-elsewhere", not bad, fi.where(), "the iterable is handed to nothing but len()/the loop (%s)" % bad)
+        _generator_rules(chk, repo, q, fi, fi.params[0])
     # public wrappers forward the iterable
     pb = repo.func("esutil.pbar.pbar")
     chk.analysed_unit(pb.qualname)
-    rets = [x for x in walk_no_nested(pb.node) if isinstance(x, ast.Return)]
-    ok = len(rets) == 2 and all(isinstance(r.value, ast.Call) and call_name(r.value) in ("sbar", "_pbar_full") and r.value.args and norm(r.value.args[0]) == "iterable" for r in rets)
-    chk.ob("R20.fwd", pb.qualname + "::forwards-iterable", ok, pb.where(), "pbar returns sbar(iterable, ...) or _pbar_full(iterable, ...)")
-    for r in rets:
-        if isinstance(r.value, ast.Call):
-            bad = [k.arg for k in r.value.keywords if k.arg and norm(k.value) != k.arg]
-            chk.ob("R20.fwd", "%s::options-forwarded::%s" % (pb.qualname, call_name(r.value)), not bad, pb.where(r), "options are forwarded under their own names (%s)" % bad)
+    it = pb.params[0]
     cfg = cfg_of(pb)
     view = cfg.view()
-    for n in rules.return_nodes(cfg):
-        ts = dict(rules.controlling_tests(view, n))
-        want = "T" if call_name(n.ast.value) == "sbar" else "F"
-        chk.ob("R20.fwd", "%s::simple-dispatch::%s" % (pb.qualname, call_name(n.ast.value)), ts.get("simple") == want, pb.where(n.ast), "simple=%s selects %s" % (want == "T", call_name(n.ast.value)))
+    rns = rules.return_nodes(cfg)
+    targets = []
+    ok = bool(rns)
+    for n in rns:
+        v = n.ast.value
+        while isinstance(v, ast.Name) and v.id in rules.single_defs(pb.node):
+            v = rules.single_defs(pb.node)[v.id]
+        g = _callee(repo, pb, v) if isinstance(v, ast.Call) else None
+        if g is None or g.qualname not in ("esutil.pbar.sbar", "esutil.pbar._pbar_full") or _role(g, v, it) != g.params[0]:
+            ok = False
+            continue
+        targets.append((n, v, g))
+    ok = ok and {g.name for _, _, g in targets} == {"sbar", "_pbar_full"}
+    chk.ob("R20.fwd", pb.qualname + "::forwards-iterable", ok, pb.where(), "pbar returns sbar(iterable, ...) or _pbar_full(iterable, ...)")
+    for n, v, g in targets:
+        facts = _facts(view, n)
+        params = [p for p in g.params if not p.startswith("*")]
+        pairs = [(params[i], a) for i, a in enumerate(v.args) if i < len(params) and not isinstance(a, ast.Starred)] + [(k.arg, k.value) for k in v.keywords if k.arg]
+        bad = []
+        for name, val in pairs:
+            if name == g.params[0] or norm(val) == name:
+                continue
+            if isinstance(val, ast.Constant) and isinstance(val.value, bool) and (("truthy " if val.value else "falsy ") + name) in facts:
+                continue                # the literal the option is known to have on this path
+            bad.append(name)
+        chk.ob("R20.fwd", "%s::options-forwarded::%s" % (pb.qualname, g.name), not bad, pb.where(n.ast), "options are forwarded under their own names (%s)" % bad)
+        want = "truthy simple" if g.name == "sbar" else "falsy simple"
+        chk.ob("R20.fwd", "%s::simple-dispatch::%s" % (pb.qualname, g.name), want in facts, pb.where(n.ast), "simple=%s selects %s" % (g.name == "sbar", g.name))
     chk.ob("R20.fwd", "esutil.pbar.PBar-is-pbar", norm(repo.module("esutil.pbar").consts.get("PBar", ast.Constant(value=None))) == "pbar", "esutil/pbar.py", "PBar is an alias of pbar")
     pr = repo.func("esutil.pbar.prange")
     chk.analysed_unit(pr.qualname)
     rets = [x for x in walk_no_nested(pr.node) if isinstance(x, ast.Return)]
-    ok = len(rets) == 1 and norm(rets[0].value) == "pbar(range(*args), **kwargs)"
+    ok = len(rets) == 1 and rules.xnorm(rets[0].value, pr.node) in ("pbar(range(*args), **kwargs)", "PBar(range(*args), **kwargs)")
     chk.ob("R20.fwd", pr.qualname + "::is-pbar-of-range", ok, pr.where(), "prange(...) is pbar(range(*args), **kwargs)")
 
 
-def _loop_key(a):
-    return norm(a.iter)
-
-
-def _yield_counts(stmts, obj):
-    """set of yield counts over all paths through a statement list (loops inside count as 0/many -> reported as 99)"""
-    counts = {0}
-    for s in stmts:
-        if isinstance(s, ast.If):
-            c = _yield_counts(s.body, obj) | _yield_counts(s.orelse, obj) if s.orelse else _yield_counts(s.body, obj) | {0}
-            c = {x + (1 if any(isinstance(y, ast.Yield) for y in ast.walk(s.test)) else 0) for x in c}
-        elif isinstance(s, (ast.For, ast.While)):
-            c = {0, 99} if any(isinstance(y, ast.Yield) for y in ast.walk(s)) else {0}
-        elif isinstance(s, ast.Try):
-            c = _yield_counts(s.body, obj)
-            for h in s.handlers:
-                c |= _yield_counts(h.body, obj)
-        elif isinstance(s, ast.With):
-            c = _yield_counts(s.body, obj)
-        else:
-            c = {sum(1 for y in ast.walk(s) if isinstance(y, (ast.Yield, ast.YieldFrom)))}
-        counts = {a + b for a in counts for b in c}
-    return counts
-
-
 # ---------------------------------------------------------------------------
+class _Null(Nullness):
+    """the engine's nullness analysis, extended in two directions so that the flow of a possibly-None value survives the extraction
+    of helpers: (1) `x = helper(...)` makes x possibly None when the helper can return None for these arguments (explicit
+    `return None`, return of a possibly-None name, falling off the end); (2) a nested function is analysed with the enclosing
+    function's possibly-None variables it reads, as they are where it is called"""
+
+    def __init__(self, repo):
+        Nullness.__init__(self, repo)
+        self.fis = {}
+        self.state = {}
+        self.retnone = {}
+        self.ctx = None
+
+    def analyse(self, fi, maybe_none_params, chain=()):
+        key = (fi.qualname, tuple(sorted(maybe_none_params)))
+        if key in self.memo:
+            return
+        self.memo[key] = True
+        self.fis[key] = fi
+        saved = self.ctx
+        self.ctx = (fi, chain)
+        try:
+            cfg = rules.cfg_of(fi)
+            view = cfg.view()
+            init = set(maybe_none_params)
+            IN = {cfg.entry.id: set(init)}
+            OUT = {}
+            order = [n for n in cfg.nodes if view.reachable(n)]
+            for _ in range(20):
+                changed = False
+                for n in order:
+                    if n.id == cfg.entry.id:
+                        s = set(init)
+                    else:
+                        s = set()
+                        for p in view.pred(n):
+                            o = OUT.get((p.id, n.id))
+                            if o is None:
+                                o = OUT.get((p.id, None))
+                            if o is not None:
+                                s |= o
+                    IN[n.id] = s
+                    outs = self.transfer(cfg, view, n, s)
+                    for k, v in outs.items():
+                        if OUT.get(k) != v:
+                            OUT[k] = v
+                            changed = True
+                if not changed:
+                    break
+            self.state[key] = IN
+            for n in order:
+                self.uses(fi, n, IN.get(n.id, set()), chain)
+            # nested functions read the enclosing variables at the time they are called
+            for n in order:
+                if n.kind == "def" and isinstance(n.ast, ast.FunctionDef):
+                    f = n.ast
+                    sites = [m for m in order if m is not n and any(isinstance(c.func, ast.Name) and c.func.id == f.name for c in rules.stmts_calls(m))]
+                    st = set()
+                    for m in (sites or [n]):
+                        st |= IN.get(m.id, set())
+                    bound = set(func_params(f)) | {x.id for x in walk_no_nested(f) if isinstance(x, ast.Name) and isinstance(x.ctx, ast.Store)}
+                    free = {x.id for x in ast.walk(f) if isinstance(x, ast.Name) and isinstance(x.ctx, ast.Load)} - bound
+                    mn = free & st
+                    if mn:
+                        sub = FuncInfo("%s.<locals>.%s" % (fi.qualname, f.name), fi.module, fi.cls, f, fi.path)
+                        self.analyse(sub, mn, chain + ("%s (closure defined at %s)" % (fi.qualname, fi.where(f)),))
+        finally:
+            self.ctx = saved
+
+    def transfer(self, cfg, view, n, s):
+        res = Nullness.transfer(self, cfg, view, n, s)
+        a = n.ast
+        if n.kind == "stmt" and isinstance(a, ast.Assign) and isinstance(a.value, ast.Call) and self.ctx is not None:
+            if self.may_return_none(self.ctx[0], a.value, s, self.ctx[1]):
+                out = res.get((n.id, None))
+                if out is not None:
+                    for t in a.targets:
+                        if isinstance(t, ast.Name):
+                            out.add(t.id)
+        return res
+
+    def may_return_none(self, fi, call, s, chain, depth=0):
+        d = dotted_name(call.func)
+        if not d or depth > 4:
+            return False
+        full = self.repo.resolve_name(fi.module, d)
+        if not self.repo.has(full):
+            return False
+        callee = self.repo.func(full)
+        if rules.is_generator(callee.node):
+            return False
+        params = [p for p in callee.params if not p.startswith("*")]
+        mn = set()
+        for i, a in enumerate(call.args):
+            if isinstance(a, ast.Name) and a.id in s and i < len(params):
+                mn.add(params[i])
+        for k in call.keywords:
+            if k.arg and isinstance(k.value, ast.Name) and k.value.id in s:
+                mn.add(k.arg)
+        key = (callee.qualname, tuple(sorted(mn)))
+        if key in self.retnone:
+            return self.retnone[key]
+        if key in self.memo and key not in self.state:
+            return False               # recursion: being analysed
+        self.analyse(callee, mn, chain + ("%s (%s)" % (fi.qualname, fi.where(call)),))
+        IN = self.state.get(key)
+        if IN is None:
+            return False
+        cfg = rules.cfg_of(callee)
+        view = cfg.view()
+        res = bool([p for p in rules.falls_off_end(cfg, view) if view.reachable(p)])
+        for n in rules.return_nodes(cfg):
+            if not view.reachable(n):
+                continue
+            v = n.ast.value
+            st = IN.get(n.id, set())
+            if v is None or (isinstance(v, ast.Constant) and v.value is None) or (isinstance(v, ast.Name) and v.id in st):
+                res = True
+            elif isinstance(v, ast.IfExp) and any((isinstance(x, ast.Constant) and x.value is None) or (isinstance(x, ast.Name) and x.id in st) for x in (v.body, v.orelse)):
+                res = True
+            elif isinstance(v, ast.Call) and self.may_return_none(callee, v, st, chain, depth + 1):
+                res = True
+        self.retnone[key] = res
+        return res
+
+
 def nullness(chk, repo):
-    nl = Nullness(repo)
+    nl = _Null(repo)
     entries = [("esutil.pbar._pbar_full", {"total"}), ("esutil.pbar.sbar", {"total"})]
     for q, mn in entries:
         fi = repo.func(q)
@@ -148,10 +544,12 @@ def nullness(chk, repo):
                "%s in %s: `%s` is None for an iterable without len() when no total= is given (e.g. a generator, or the executor map inside pmap)%s"
                % (what, fi.qualname, var, "".join(" <- via %s" % c for c in chain)))
     for k in nl.memo:
+        if not k[1]:
+            continue                   # analysed only to learn whether the helper can return None
         if not any(r[0].qualname == k[0] for r in nl.reports):
-            chk.ob("R20.null", "%s%s::no-unguarded-use" % (k[0], list(k[1])), True, repo.func(k[0]).where(),
+            chk.ob("R20.null", "%s%s::no-unguarded-use" % (k[0], list(k[1])), True, nl.fis[k].where(),
                    "a possibly-None %s never reaches an ordering comparison or arithmetic unguarded in %s" % (list(k[1]), k[0]))
-    chk.ob("R20.null", "nullness::callee-reached", any(k[0] == "esutil.pbar.format_meter" for k in nl.memo), "esutil/pbar.py",
+    chk.ob("R20.null", "nullness::callee-reached", any(k[0] == "esutil.pbar.format_meter" and "total" in k[1] for k in nl.memo), "esutil/pbar.py",
            "the analysis followed the possibly-None total into the meter formatter")
 
 
@@ -169,6 +567,8 @@ def pmap(chk, repo):
     w = withs[0]
     ex = norm(w.items[0].optional_vars)
     mw = kwarg(w.items[0].context_expr, "max_workers")
+    if mw is None and w.items[0].context_expr.args:
+        mw = w.items[0].context_expr.args[0]
     chk.ob("R20.pmap", q + "::worker-count", mw is not None and norm(mw) == "nproc", fi.where(w), "max_workers is the requested nproc")
     maps = [x for x in ast.walk(w) if isinstance(x, ast.Call) and isinstance(x.func, ast.Attribute) and norm(x.func.value) == ex]
     chk.ob("R20.pmap", q + "::ordered-map-only", len(maps) == 1 and maps[0].func.attr == "map", fi.where(w),
@@ -180,19 +580,80 @@ def pmap(chk, repo):
         ok = [norm(a) for a in m.args[:2]] == ["fn", "iterable"]
         cs = kwarg(m, "chunksize")
         chk.ob("R20.pmap", q + "::map-roles", ok and cs is not None and norm(cs) == "chunksize", fi.where(m), "ex.map(fn, iterable, chunksize=chunksize)")
-        # result = list( [pbar(] ex.map(...) [)] ) assigned inside the with, returned after
-        res = [x for x in ast.walk(w) if isinstance(x, ast.Assign) and isinstance(x.value, ast.Call) and call_name(x.value) == "list"]
-        ok = False
-        if len(res) == 1:
-            inner = res[0].value.args[0]
-            if inner is m:
-                ok = True
-            elif isinstance(inner, ast.Call) and call_name(inner) in ("pbar", "PBar") and inner.args and inner.args[0] is m:
-                ok = True
-        chk.ob("R20.pmap", q + "::result-is-list-of-ordered-map", ok, fi.where(), "the result is list(pbar(ex.map(...))) evaluated inside the with-block (all items, input order)")
-        rets = [x for x in walk_no_nested(fn) if isinstance(x, ast.Return)]
-        ok = len(rets) == 1 and res and norm(rets[0].value) == norm(res[0].targets[0])
-        chk.ob("R20.pmap", q + "::returns-that-list", bool(ok), fi.where(), "that list is returned unmodified")
+        # every value the function can return is list( [pbar(] ex.map(...) [)] ), evaluated inside the with-block; temporaries are
+        # followed through their reaching definitions
+        cfg = cfg_of(fi)
+        rin, _ = cfg.view().reaching_defs()
+        inside = {id(x) for x in ast.walk(w)}
+
+        def values(e, at, depth=0):
+            """the expressions `e` can stand for at CFG node `at` (names followed through plain assignments); None: not resolvable"""
+            if not isinstance(e, ast.Name) or depth > 6:
+                return [e]
+            defs = rin.get(at.id, {}).get(e.id)
+            if not defs:
+                return None
+            out = []
+            for d in sorted(defs):
+                dn = cfg.node(d)
+                a = dn.ast
+                if dn.kind != "stmt" or not isinstance(a, ast.Assign) or len(a.targets) != 1 or not isinstance(a.targets[0], ast.Name):
+                    return None
+                sub = values(a.value, dn, depth + 1)
+                if sub is None:
+                    return None
+                out += sub
+            return out
+
+        def ordered_list(e, at):
+            """True: list(M) / list(pbar(M, ...)) / [x for x in ...] inside the with-block; False: something else; None: unknown"""
+            src = None
+            if isinstance(e, ast.Call) and isinstance(e.func, ast.Name) and e.func.id == "list" and len(e.args) == 1 and not e.keywords:
+                src = e.args[0]
+            elif isinstance(e, ast.ListComp) and len(e.generators) == 1 and not e.generators[0].ifs and isinstance(e.elt, ast.Name) \
+                    and isinstance(e.generators[0].target, ast.Name) and e.elt.id == e.generators[0].target.id:
+                src = e.generators[0].iter
+            if src is None:
+                return False if isinstance(e, (ast.Call, ast.ListComp, ast.List, ast.Subscript, ast.BinOp, ast.GeneratorExp, ast.Constant)) else None
+            if id(e) not in inside:
+                return False
+            res = True
+            for v in (values(src, at) or [None]):
+                if v is None:
+                    return None
+                if isinstance(v, ast.Call) and call_name(v) in ("pbar", "PBar") and (v.args or kwarg(v, "iterable") is not None):
+                    inner = values(v.args[0] if v.args else kwarg(v, "iterable"), at)
+                    if inner is None:
+                        return None
+                    if not all(x is m for x in inner):
+                        if all(isinstance(x, ast.Call) and any(y is m for y in ast.walk(x)) for x in inner if x is not m):
+                            return None
+                        res = False
+                elif v is not m:
+                    if isinstance(v, ast.Call) and any(x is m for x in ast.walk(v)):
+                        return None     # the ordered map inside a wrapper this rule does not know
+                    res = False
+            return res
+        rns = rules.return_nodes(cfg)
+        verdicts = []
+        for n in rns:
+            rv = n.ast.value
+            vs = values(rv, n) if rv is not None else [ast.Constant(value=None)]
+            if vs is None:
+                verdicts.append(None)
+                continue
+            for v in vs:
+                if isinstance(v, ast.Name):
+                    verdicts.append(None)
+                    continue
+                at = n
+                verdicts.append(ordered_list(v, at))
+        ok = None if not verdicts else (False if any(v is False for v in verdicts) else (None if any(v is None for v in verdicts) else True))
+        chk.ob("R20.pmap", q + "::result-is-list-of-ordered-map", ok, fi.where(),
+               "the result is list(pbar(ex.map(...))) evaluated inside the with-block (all items, input order)")
+        falls = [p for p in rules.falls_off_end(cfg) if not (p.kind == "raise")]
+        okr = bool(rns) and not falls and all(n.ast.value is not None for n in rns) and ok is not False
+        chk.ob("R20.pmap", q + "::returns-that-list", None if (okr and ok is None) else okr, fi.where(), "that list is returned unmodified on every path")
         srt = [norm(x) for x in walk_no_nested(fn) if isinstance(x, ast.Call) and call_name(x) in ("sort", "sorted", "reverse", "reversed", "set", "shuffle")]
         chk.ob("R20.pmap", q + "::no-reordering", not srt, fi.where(), "nothing reorders or de-duplicates the results (%s)" % srt)
 
@@ -273,16 +734,90 @@ def keyvalue(chk, repo):
     for q2, part, nargs in (("esutil.algorithm._quicksort", "partition", 1), ("esutil.algorithm._quicksort_keyvalue", "partition_keyvalue", 2)):
         fi = repo.func(q2)
         chk.analysed_unit(q2)
-        arrs = fi.params[:nargs]
-        calls = [x for x in walk_no_nested(fi.node) if isinstance(x, ast.Call)]
-        texts = [norm(c) for c in calls]
-        pre = ", ".join(arrs)
-        want = ["%s(%s, start, end)" % (part, pre), "%s(%s, start, split - 1)" % (fi.name, pre), "%s(%s, split + 1, end)" % (fi.name, pre)]
-        chk.ob("R20.sort", q2 + "::recursion", sorted(texts) == sorted(want), fi.where(), "partition, then recurse on [start, split-1] and [split+1, end] (%s)" % texts)
+        ok, found = _sort_ranges(fi, part, nargs)
+        chk.ob("R20.sort", q2 + "::recursion", ok, fi.where(),
+               "partition [start, end], then sort both [start, split-1] and [split+1, end] (by recursion, or by carrying on in a loop) (%s)" % found)
         cfg = cfg_of(fi)
         v = cfg.view()
-        ok = all(dict(rules.controlling_tests(v, n)).get("start < end") == "T" for n in cfg.nodes for c in rules.stmts_calls(n))
-        chk.ob("R20.sort", q2 + "::guard", ok, fi.where(), "recursion only for ranges of two or more elements (start < end)")
+        lo, hi = fi.params[nargs:nargs + 2] if len(fi.params) >= nargs + 2 else ("start", "end")
+        withcalls = [n for n in cfg.nodes if any(call_name(c) in (part, fi.name) for c in rules.stmts_calls(n))]
+        ok = bool(withcalls) and all("%s < %s" % (lo, hi) in _facts(v, n) for n in withcalls)
+        chk.ob("R20.sort", q2 + "::guard", ok, fi.where(), "partition and recursion only for ranges of two or more elements (start < end)")
+
+
+def _sort_ranges(fi, part, nargs):
+    """(verdict, text): after `split = partition(arrays, start, end)` the ranges [start, split-1] and [split+1, end] are both handed on,
+    each by a recursive call or by the next round of the enclosing `while start < end` loop"""
+    fn = fi.node
+    if len(fi.params) < nargs + 2:
+        return None, "parameters changed"
+    arrs = fi.params[:nargs]
+    lo, hi = fi.params[nargs], fi.params[nargs + 1]
+    pm = _parent_map(fn)
+    pcalls = [x for x in walk_no_nested(fn) if isinstance(x, ast.Call) and call_name(x) == part]
+    if len(pcalls) != 1:
+        return None, "%d calls of %s" % (len(pcalls), part)
+    pc = pcalls[0]
+    st = pm.get(id(pc))
+    if not (isinstance(st, ast.Assign) and st.value is pc and len(st.targets) == 1 and isinstance(st.targets[0], ast.Name)):
+        return None, "the split point is not kept in a local"
+    split = st.targets[0].id
+    owner = pm.get(id(st))
+    block = None
+    for f in ("body", "orelse"):
+        if isinstance(getattr(owner, f, None), list) and st in getattr(owner, f):
+            block = getattr(owner, f)
+    if block is None or not isinstance(owner, (ast.If, ast.While, ast.FunctionDef)):
+        return None, "partition call in an unrecognised position"
+    k = block.index(st)
+    if any(isinstance(x, ast.Name) and isinstance(x.ctx, ast.Store) and x.id in (lo, hi) for b in block[:k] for x in ast.walk(b)):
+        return None, "range re-bound before the partition"
+    S, E, P = sp.Symbol(lo, integer=True), sp.Symbol(hi, integer=True), sp.Symbol(split, integer=True)
+    sx = _Sx({lo: S, hi: E, split: P})
+    if pc.keywords or any(isinstance(a, ast.Starred) for a in pc.args):
+        return None, norm(pc)
+    if [norm(a) for a in pc.args[:nargs]] != arrs or len(pc.args) != nargs + 2:
+        return False, norm(pc)
+    if not (_teq(sx.ev(pc.args[nargs]), S) is True and _teq(sx.ev(pc.args[nargs + 1]), E) is True):
+        return False, norm(pc)
+    handed = []
+    for b in block[k + 1:]:
+        if isinstance(b, ast.Expr) and isinstance(b.value, ast.Call) and call_name(b.value) == fi.name and isinstance(b.value.func, ast.Name):
+            c = b.value
+            if c.keywords or any(isinstance(a, ast.Starred) for a in c.args):
+                return None, norm(c)
+            if [norm(a) for a in c.args[:nargs]] != arrs or len(c.args) != nargs + 2:
+                return False, norm(c)
+            handed.append((sx.ev(c.args[nargs]), sx.ev(c.args[nargs + 1])))
+        elif isinstance(b, ast.Assign) and len(b.targets) == 1 and isinstance(b.targets[0], ast.Name):
+            if b.targets[0].id == split:
+                return None, "split point re-bound"
+            sx.env[b.targets[0].id] = sx.ev(b.value)
+        elif isinstance(b, ast.AugAssign) and isinstance(b.target, ast.Name):
+            sx.env[b.target.id] = sx.binop(ast.BinOp(left=b.target, op=b.op, right=b.value), sx.ev(b.target), sx.ev(b.value))
+        elif isinstance(b, (ast.Pass,)) or (isinstance(b, ast.Expr) and isinstance(b.value, ast.Constant)) or (isinstance(b, ast.Return) and b.value is None) \
+                or isinstance(b, ast.Continue):
+            if isinstance(b, (ast.Return, ast.Continue)):
+                break
+        else:
+            return None, "unrecognised statement `%s` after the partition" % norm(b)[:60]
+    if isinstance(owner, ast.While) and block is owner.body and not (block and isinstance(block[-1], ast.Return)):
+        cont = (sx.env[lo], sx.env[hi])
+        if not (_teq(cont[0], S) is True and _teq(cont[1], E) is True):
+            handed.append(cont)
+        else:
+            return False, "the loop goes round with an unchanged range"
+    if not all(isinstance(a, sp.Basic) and isinstance(b, sp.Basic) for a, b in handed):
+        return None, "unrecognised range"
+    want = [(S, P - 1), (P + 1, E)]
+    text = ", ".join("[%s, %s]" % (a, b) for a, b in handed)
+    if len(handed) != 2:
+        return False, text
+    for perm in (handed, handed[::-1]):
+        rs = [_teq(perm[i][j], want[i][j]) for i in range(2) for j in range(2)]
+        if all(r is True for r in rs):
+            return True, text
+    return (False if all(_known(a) and _known(b) for a, b in handed) else None), text
 
 
 def _isdoc(x):
@@ -293,92 +828,853 @@ def quicksort(chk, repo):
     for q, callee, n in (("esutil.algorithm.quicksort", "_quicksort", 1), ("esutil.algorithm.quicksort_keyvalue", "_quicksort_keyvalue", 2)):
         fi = repo.func(q)
         chk.analysed_unit(q)
-        env = {norm(x.targets[0]): norm(x.value) for x in walk_no_nested(fi.node) if isinstance(x, ast.Assign)}
         calls = [x for x in walk_no_nested(fi.node) if isinstance(x, ast.Call) and call_name(x) == callee]
-        ok = len(calls) == 1 and [norm(a) for a in calls[0].args[:n]] == fi.params[:n]
+        ok = len(calls) == 1 and [norm(a) for a in calls[0].args[:n]] == fi.params[:n] and len(calls[0].args) == n + 2
         if ok:
-            lo, hi = [env.get(norm(a), norm(a)) for a in calls[0].args[n:n + 2]]
-            ok = lo == "0" and hi in ("len(%s) - 1" % p for p in fi.params[:n])
+            sx = _SplitEval({}, fi.node)
+            lo, hi = sx.ev(calls[0].args[n]), sx.ev(calls[0].args[n + 1])
+            ok = _teq(lo, 0) is True and any(_teq(hi, sp.Symbol("len(%s)" % p, integer=True) - 1) is True for p in fi.params[:n])
         chk.ob("R20.sort", q + "::whole-range", ok, fi.where(), "the public sort covers the whole input: %s(<arrays>, 0, len-1)" % callee)
 
 
 # ---------------------------------------------------------------------------
+# integer term evaluation (names, + - *, // and %, divmod) on sympy terms: two spellings of the same quantity give the same
+# term whatever temporaries they go through
+_fdiv = sp.Function("fdiv")
+_fmod = sp.Function("fmod")
+_cdiv = sp.Function("cdiv")
+
+
+def _opq(text):
+    return sp.Symbol("?" + text)
+
+
+def _known(t):
+    """no unrecognised sub-term in a sympy term"""
+    try:
+        return not any(str(s).startswith("?") for s in t.free_symbols)
+    except Exception:
+        return False
+
+
+def _teq(a, b):
+    """term equality: True / False / None (an unrecognised sub-term takes part in the difference)"""
+    try:
+        d = sp.expand(sp.sympify(a) - sp.sympify(b))
+        if d == 0:
+            return True
+        # x % y == x - y * (x // y)
+        d = sp.expand(d.replace(_fmod, lambda x, y: x - y * _fdiv(x, y)))
+        if d == 0 or sp.simplify(d) == 0:
+            return True
+        return False if _known(d) else None
+    except Exception:
+        return None
+
+
+def _pull(a, b):
+    """a = a' + k*b with integer k: (a', k)"""
+    a = sp.expand(a)
+    if b.is_Symbol:
+        k = a.coeff(b)
+        if k.is_Integer and k != 0:
+            return sp.expand(a - k * b), k
+    return a, sp.Integer(0)
+
+
+def _ceildiv(a, b):
+    a, k = _pull(a, b)
+    return _cdiv(a, b) + k
+
+
+def _floordiv(a, b):
+    """a // b with the integer identities floor(-x / b) == -ceil(x / b) and floor((x - 1) / b) == ceil(x / b) - 1 (b > 0) applied, so
+    that -(-x // b), (x + b - 1) // b and (x - 1) // b + 1 are one term"""
+    try:
+        a, k = _pull(a, b)
+        if a.could_extract_minus_sign():
+            return -_ceildiv(-a, b) + k
+        if a.as_coeff_Add()[0] == -1:
+            return _ceildiv(a + 1, b) - 1 + k
+        return _fdiv(a, b) + k
+    except Exception:
+        return _fdiv(a, b)
+
+
+class _Sx:
+    """python integer expression -> sympy term.  env: name -> value (term, tuple of values, or an abstract object)"""
+
+    def __init__(self, env=None):
+        self.env = dict(env or {})
+
+    def sym(self, text):
+        return sp.Symbol(text, integer=True)
+
+    def scalar(self, v):
+        return isinstance(v, sp.Basic)
+
+    def ev(self, e):
+        if isinstance(e, ast.Constant):
+            if isinstance(e.value, bool) or not isinstance(e.value, int):
+                return _opq(norm(e))
+            return sp.Integer(e.value)
+        if isinstance(e, ast.Name):
+            return self.env[e.id] if e.id in self.env else self.sym(e.id)
+        if isinstance(e, ast.Attribute):
+            d = dotted_name(e)
+            if d is not None:
+                return self.env[d] if d in self.env else self.sym(d)
+            return _opq(norm(e))
+        if isinstance(e, ast.UnaryOp) and isinstance(e.op, (ast.USub, ast.UAdd)):
+            v = self.ev(e.operand)
+            if self.scalar(v):
+                return -v if isinstance(e.op, ast.USub) else v
+            return None
+        if isinstance(e, ast.BinOp):
+            return self.binop(e, self.ev(e.left), self.ev(e.right))
+        if isinstance(e, ast.Tuple):
+            return tuple(self.ev(x) for x in e.elts)
+        if isinstance(e, ast.Call):
+            return self.call(e)
+        if isinstance(e, ast.Subscript):
+            return self.subscript(e)
+        return _opq(norm(e))
+
+    def binop(self, e, a, b):
+        if self.scalar(a) and self.scalar(b):
+            if isinstance(e.op, ast.Add):
+                return a + b
+            if isinstance(e.op, ast.Sub):
+                return a - b
+            if isinstance(e.op, ast.Mult):
+                return a * b
+            if isinstance(e.op, ast.FloorDiv):
+                return _floordiv(a, b)
+            if isinstance(e.op, ast.Mod):
+                return _fmod(a, b)
+            if isinstance(e.op, ast.Div):
+                return a / b
+        return _opq(norm(e))
+
+    def call(self, e):
+        cn = call_name(e)
+        if cn == "int" and len(e.args) == 1 and isinstance(e.func, ast.Name):
+            v = self.ev(e.args[0])
+            # int(ceil(x / y)) for integer x, y
+            return v
+        if cn == "ceil" and len(e.args) == 1 and isinstance(e.args[0], ast.BinOp) and isinstance(e.args[0].op, ast.Div):
+            a, b = self.ev(e.args[0].left), self.ev(e.args[0].right)
+            if self.scalar(a) and self.scalar(b):
+                return _ceildiv(a, b)
+        if cn == "float" and len(e.args) == 1:
+            return self.ev(e.args[0])
+        if cn == "divmod" and len(e.args) == 2 and isinstance(e.func, ast.Name):
+            a, b = self.ev(e.args[0]), self.ev(e.args[1])
+            if self.scalar(a) and self.scalar(b):
+                return (_floordiv(a, b), _fmod(a, b))
+        if cn == "len" and len(e.args) == 1 and isinstance(e.func, ast.Name):
+            return self.sym("len(%s)" % norm(e.args[0]))
+        return _opq(norm(e))
+
+    def subscript(self, e):
+        return _opq(norm(e))
+
+
+def _rel(t, neg=False):
+    """a test as a set of canonical relational facts 'a < b' / 'a <= b' / 'a == b' / 'a != b' / 'truthy x' / 'falsy x' that hold
+    when the test has the value `not neg` (conjunctions split; a disjunction under negation splits as well)"""
+    if isinstance(t, ast.UnaryOp) and isinstance(t.op, ast.Not):
+        return _rel(t.operand, not neg)
+    if isinstance(t, ast.BoolOp):
+        if isinstance(t.op, ast.And) != neg:
+            out = set()
+            for v in t.values:
+                out |= _rel(v, neg)
+            return out
+        return set()
+    if isinstance(t, ast.Compare) and len(t.ops) == 1:
+        a, b, op = norm(t.left), norm(t.comparators[0]), type(t.ops[0])
+        if neg:
+            op = {ast.Lt: ast.GtE, ast.LtE: ast.Gt, ast.Gt: ast.LtE, ast.GtE: ast.Lt, ast.Eq: ast.NotEq, ast.NotEq: ast.Eq,
+                  ast.Is: ast.IsNot, ast.IsNot: ast.Is}.get(op)
+        if op in (ast.Gt, ast.GtE):
+            a, b, op = b, a, {ast.Gt: ast.Lt, ast.GtE: ast.LtE}[op]
+        sym = {ast.Lt: "<", ast.LtE: "<=", ast.Eq: "==", ast.NotEq: "!=", ast.Is: "is", ast.IsNot: "is not"}.get(op)
+        if sym is None:
+            return set()
+        if sym in ("==", "!=") and a > b:
+            a, b = b, a
+        return {"%s %s %s" % (a, sym, b)}
+    return {("falsy " if neg else "truthy ") + norm(t)}
+
+
+def _facts(view, n):
+    """canonical facts (see _rel) implied by the branch and while tests that control CFG node n"""
+    out = set()
+    for b, lab in view.controlling_branches(n):
+        if b.kind == "branch" or (b.kind == "loop" and isinstance(b.ast, ast.While)):
+            if lab in ("T", "F"):
+                out |= _rel(b.ast.test, lab == "F")
+    return out
+
+
+# ---------------------------------------------------------------------------
+# isplit: abstract evaluation of the straight-line body.  Lists / arrays that are piecewise constant are kept as runs
+# [(count, value)], their cumulative sum as _Cum, the structured result as _Tab whose fields are read off a _Cum at an offset.
+class _Rep:
+    def __init__(self, segs):
+        self.segs = list(segs)
+
+
+class _Cum:
+    def __init__(self, segs):
+        self.segs = list(segs)
+
+
+class _Tab:
+    def __init__(self, n, fields):
+        self.n = n
+        self.fields = dict(fields)     # name -> None (not stored) | (cum, offset) | "?" (stored, not understood)
+
+
+class _Elem:
+    def __init__(self, cum, idx):
+        self.cum, self.idx = cum, idx
+
+
+class _Shift:
+    def __init__(self, cum, lo, hi):
+        self.cum, self.lo, self.hi = cum, lo, hi
+
+
+def _total(segs):
+    t = sp.Integer(0)
+    for c, _ in segs:
+        t = t + c
+    return sp.expand(t)
+
+
+class _IsplitEval(_Sx):
+    def __init__(self, env):
+        _Sx.__init__(self, env)
+        self.cums = []
+        self.ret = []
+        self.loop = None       # (symbol, count) of the enclosing `for i in range(count)`
+        self.swapped = False
+
+    # -- expressions ------------------------------------------------------
+    def ev(self, e):
+        if isinstance(e, (ast.List, ast.Tuple)) and e.elts:
+            vs = [_Sx.ev(self, x) if not isinstance(x, (ast.List, ast.Tuple)) else None for x in e.elts]
+            if all(self.scalar(v) for v in vs) and isinstance(e, ast.List):
+                return _Rep([(sp.Integer(1), v) for v in vs])
+            if isinstance(e, ast.Tuple):
+                return tuple(self.ev(x) for x in e.elts)
+        return _Sx.ev(self, e)
+
+    def binop(self, e, a, b):
+        if isinstance(a, _Rep) and isinstance(b, _Rep) and isinstance(e.op, ast.Add):
+            return _Rep(a.segs + b.segs)
+        if isinstance(e.op, ast.Mult):
+            for r, k in ((a, b), (b, a)):
+                if isinstance(r, _Rep) and self.scalar(k):
+                    if len(r.segs) == 1:
+                        return _Rep([(sp.expand(r.segs[0][0] * k), r.segs[0][1])])
+                    return None
+        if isinstance(a, (_Rep, _Cum, _Tab)) or isinstance(b, (_Rep, _Cum, _Tab)):
+            return None
+        return _Sx.binop(self, e, a, b)
+
+    def _arg(self, c, i, name):
+        if len(c.args) > i:
+            return c.args[i]
+        return kwarg(c, name)
+
+    def call(self, c):
+        cn = call_name(c)
+        if cn in ("array", "asarray", "asanyarray", "list", "ascontiguousarray") and c.args:
+            v = self.ev(c.args[0])
+            if isinstance(v, (_Rep, _Cum)):
+                return v
+            return None
+        if cn == "full":
+            n, v = self._arg(c, 0, "shape"), self._arg(c, 1, "fill_value")
+            if n is not None and v is not None:
+                n, v = self.ev(n), self.ev(v)
+                if self.scalar(n) and self.scalar(v):
+                    return _Rep([(n, v)])
+            return None
+        if cn in ("zeros", "ones", "empty"):
+            n = self._arg(c, 0, "shape")
+            dt = self._arg(c, 1, "dtype")
+            n = self.ev(n) if n is not None else None
+            if not self.scalar(n):
+                return None
+            if isinstance(dt, ast.List):
+                names = [x.elts[0].value for x in dt.elts if isinstance(x, ast.Tuple) and x.elts and isinstance(x.elts[0], ast.Constant)]
+                if len(names) == len(dt.elts):
+                    return _Tab(n, {k: None for k in names})
+                return None
+            return _Rep([(n, {"zeros": sp.Integer(0), "ones": sp.Integer(1), "empty": _opq("uninitialised")}[cn])])
+        if cn == "cumsum" and kwarg(c, "out") is None:
+            src = c.func.value if (isinstance(c.func, ast.Attribute) and not c.args) else (c.args[0] if c.args else None)
+            v = self.ev(src) if src is not None else None
+            if isinstance(v, _Rep):
+                cu = _Cum(v.segs)
+                self.cums.append(cu)
+                return cu
+            return None
+        if cn in ("concatenate", "hstack", "r_") and c.args and isinstance(c.args[0], (ast.Tuple, ast.List)) and len(c.args[0].elts) == 2:
+            a, b = self.ev(c.args[0].elts[0]), self.ev(c.args[0].elts[1])
+            if isinstance(a, _Rep) and isinstance(b, _Cum) and len(a.segs) == 1 and a.segs[0] == (sp.Integer(1), sp.Integer(0)):
+                cu = _Cum(a.segs + b.segs)
+                self.cums.append(cu)
+                return cu
+            return None
+        if cn == "insert" and len(c.args) == 3 and norm(c.args[1]) == "0" and norm(c.args[2]) == "0":
+            b = self.ev(c.args[0])
+            if isinstance(b, _Cum):
+                cu = _Cum([(sp.Integer(1), sp.Integer(0))] + b.segs)
+                self.cums.append(cu)
+                return cu
+            return None
+        if cn == "divmod" and len(c.args) == 2:
+            a, b = self.ev(c.args[0]), self.ev(c.args[1])
+            if self.scalar(a) and self.scalar(b) and {str(a), str(b)} == {"num", "nchunks"} and str(a) == "nchunks":
+                self.swapped = True
+        return _Sx.call(self, c)
+
+    def subscript(self, e):
+        base = self.ev(e.value)
+        if isinstance(base, _Cum):
+            if isinstance(e.slice, ast.Slice):
+                if e.slice.step is not None:
+                    return None
+                lo = self.ev(e.slice.lower) if e.slice.lower is not None else None
+                hi = self.ev(e.slice.upper) if e.slice.upper is not None else None
+                return _Shift(base, lo, hi)
+            i = self.ev(e.slice)
+            if self.scalar(i):
+                return _Elem(base, i)
+            return None
+        if isinstance(base, (_Rep, _Tab)):
+            return None
+        return _Sx.subscript(self, e)
+
+    # -- statements -------------------------------------------------------
+    def _kill(self, st):
+        for x in ast.walk(st):
+            if isinstance(x, ast.Name) and isinstance(x.ctx, ast.Store):
+                self.env[x.id] = None
+            elif isinstance(x, (ast.Subscript, ast.Attribute)) and isinstance(x.ctx, ast.Store):
+                b = x
+                while isinstance(b, (ast.Subscript, ast.Attribute)):
+                    b = b.value
+                if isinstance(b, ast.Name):
+                    self.env[b.id] = None
+
+    def run(self, stmts):
+        for st in stmts:
+            self.stmt(st)
+
+    def stmt(self, st):
+        if isinstance(st, ast.Expr) and isinstance(st.value, ast.Constant):
+            return
+        if isinstance(st, (ast.Import, ast.ImportFrom, ast.Pass, ast.Assert)):
+            return
+        if isinstance(st, ast.Assign) and len(st.targets) == 1:
+            t = st.targets[0]
+            if isinstance(t, ast.Name):
+                self.env[t.id] = self.ev(st.value)
+                return
+            if isinstance(t, (ast.Tuple, ast.List)) and all(isinstance(x, ast.Name) for x in t.elts):
+                v = self.ev(st.value)
+                for i, x in enumerate(t.elts):
+                    self.env[x.id] = v[i] if isinstance(v, tuple) and len(v) == len(t.elts) else None
+                return
+            if isinstance(t, ast.Subscript):
+                self.store(t, st.value, None)
+                return
+        if isinstance(st, ast.AugAssign):
+            if isinstance(st.target, ast.Name):
+                v = self.binop(ast.BinOp(left=st.target, op=st.op, right=st.value), self.ev(st.target), self.ev(st.value))
+                self.env[st.target.id] = v
+                return
+            if isinstance(st.target, ast.Subscript):
+                self.store(st.target, st.value, st.op)
+                return
+        if isinstance(st, ast.Expr) and isinstance(st.value, ast.Call):
+            c = st.value
+            out = kwarg(c, "out")
+            if call_name(c) == "cumsum" and out is not None and c.args:
+                v = self.ev(c.args[0])
+                self.store_cum(out, v)
+                return
+            if call_name(c) == "print":
+                return
+        if isinstance(st, ast.For) and isinstance(st.target, ast.Name) and isinstance(st.iter, ast.Call) and call_name(st.iter) == "range" \
+                and not st.orelse and not st.iter.keywords and (len(st.iter.args) == 1 or (len(st.iter.args) == 2 and norm(st.iter.args[0]) == "0")) \
+                and not any(isinstance(x, (ast.If, ast.Break, ast.Continue, ast.For, ast.While, ast.Return, ast.Try)) for b in st.body for x in ast.walk(b)):
+            n = self.ev(st.iter.args[-1])
+            if self.scalar(n):
+                self.loop = (self.sym(st.target.id), n)
+                self.env.pop(st.target.id, None)
+                self.run(st.body)
+                self.loop = None
+                return
+        if isinstance(st, ast.If) and not st.orelse and st.body and isinstance(st.body[-1], ast.Raise):
+            return                 # a rejection guard leaves the state of the continuing path unchanged
+        if isinstance(st, ast.Return):
+            self.ret.append(self.ev(st.value) if st.value is not None else None)
+            return
+        if isinstance(st, ast.Raise):
+            return
+        self._kill(st)
+
+    def store_cum(self, target, v):
+        """np.cumsum(v, out=target) / target = cumsum"""
+        if not isinstance(v, (_Rep, _Cum)):
+            self._kill(ast.Assign(targets=[_as_store(target)], value=ast.Constant(value=0)))
+            return
+        segs = v.segs
+        if isinstance(target, ast.Name):
+            cu = _Cum(segs)
+            self.cums.append(cu)
+            self.env[target.id] = cu
+            return
+        if isinstance(target, ast.Subscript) and isinstance(target.value, ast.Name) and isinstance(target.slice, ast.Slice):
+            d = self.env.get(target.value.id)
+            sl = target.slice
+            if isinstance(d, _Rep) and len(d.segs) == 1 and d.segs[0][1] == 0 and sl.step is None and sl.upper is None \
+                    and sl.lower is not None and norm(sl.lower) == "1" and _teq(d.segs[0][0], _total(segs) + 1):
+                cu = _Cum([(sp.Integer(1), sp.Integer(0))] + segs)
+                self.cums.append(cu)
+                self.env[target.value.id] = cu
+                return
+            self.env[target.value.id] = None
+            return
+        self._kill(ast.Assign(targets=[_as_store(target)], value=ast.Constant(value=0)))
+
+    def store(self, t, value, op):
+        # sizes[:r] += 1  /  sizes[:r] = q + 1
+        if isinstance(t.value, ast.Name) and isinstance(self.env.get(t.value.id), _Rep) and isinstance(t.slice, ast.Slice):
+            r = self.env[t.value.id]
+            sl = t.slice
+            v = self.ev(value)
+            if len(r.segs) == 1 and (sl.lower is None) != (sl.upper is None) and sl.step is None and self.scalar(v) and (op is None or isinstance(op, (ast.Add, ast.Sub))):
+                k = self.ev(sl.upper if sl.lower is None else sl.lower)
+                n, v0 = r.segs[0]
+                if self.scalar(k):
+                    nv = v if op is None else (v0 + v if isinstance(op, ast.Add) else v0 - v)
+                    # valid for 0 <= k <= n, which holds for the remainder of a division by n
+                    runs = [(k, nv), (sp.expand(n - k), v0)] if sl.lower is None else [(k, v0), (sp.expand(n - k), nv)]
+                    self.env[t.value.id] = _Rep(runs) if _is_remainder_of(k, n) else None
+                    return
+            if isinstance(self.env.get(t.value.id), _Rep) and op is None and len(r.segs) == 1 and r.segs[0][1] == 0:
+                v = self.ev(value)
+                if isinstance(v, _Cum):
+                    if v in self.cums:
+                        self.cums.remove(v)
+                    self.store_cum(t, v)
+                    return
+            self.env[t.value.id] = None
+            return
+        # table field stores: T['f'] = V, T['f'][:] = V, T['f'][i] = V, T[i]['f'] = V
+        tab, field, idx = self._field_target(t)
+        if tab is not None:
+            if op is not None:
+                tab.fields[field] = "?"
+                return
+            v = self.ev(value)
+            tab.fields[field] = self._field_value(tab, idx, v)
+            return
+        self._kill(ast.Assign(targets=[t], value=ast.Constant(value=0)))
+
+    def _field_target(self, t):
+        subs = []
+        b = t
+        while isinstance(b, ast.Subscript):
+            subs.append(b.slice)
+            b = b.value
+        subs.reverse()
+        if not isinstance(b, ast.Name) or not isinstance(self.env.get(b.id), _Tab):
+            return None, None, None
+        tab = self.env[b.id]
+        fields = [s for s in subs if isinstance(s, ast.Constant) and isinstance(s.value, str)]
+        rest = [s for s in subs if not (isinstance(s, ast.Constant) and isinstance(s.value, str))]
+        if len(fields) != 1 or fields[0].value not in tab.fields or len(rest) > 1:
+            self.env[b.id] = None
+            return None, None, None
+        return tab, fields[0].value, (rest[0] if rest else None)
+
+    def _field_value(self, tab, idx, v):
+        whole = idx is None or (isinstance(idx, ast.Slice) and idx.lower is None and idx.upper is None and idx.step is None) \
+            or (isinstance(idx, ast.Constant) and idx.value is Ellipsis)
+        if whole:
+            if isinstance(v, _Shift):
+                ln = _total(v.cum.segs)
+                lo = sp.Integer(0) if v.lo is None else v.lo
+                hi = ln if v.hi is None else v.hi
+                if lo.is_number and lo < 0:
+                    lo = ln + lo
+                if hi.is_number and hi < 0:
+                    hi = ln + hi
+                if _teq(hi - lo, tab.n) and self.loop is None:
+                    return (v.cum, sp.expand(lo))
+            return "?"
+        if self.loop is not None and not isinstance(idx, ast.Slice):
+            i, n = self.loop
+            if _teq(self.ev(idx), i) and _teq(n, tab.n) and isinstance(v, _Elem):
+                k = sp.expand(v.idx - i)
+                if i not in k.free_symbols:
+                    return (v.cum, k)
+        return "?"
+
+
+def _as_store(t):
+    t = copy.deepcopy(t)
+    for x in ast.walk(t):
+        if hasattr(x, "ctx"):
+            x.ctx = ast.Store()
+    return t
+
+
+def _is_remainder_of(k, n):
+    return k.func == _fmod and len(k.args) == 2 and _teq(k.args[1], n) is True
+
+
+def _norm_segs(segs, rterm):
+    """runs with empty runs dropped and equal neighbours merged; inside a run whose count is the remainder r the run is
+    non-empty only when r != 0, so the indicator [r != 0] is 1 there"""
+    out = []
+    for c, v in segs:
+        c = sp.expand(c)
+        if c == 0:
+            continue
+        if _teq(c, rterm) is True:
+            v = v.subs(_Z, 1)
+        v = sp.expand(v)
+        if out and _teq(out[-1][1], v) is True:
+            out[-1] = (sp.expand(out[-1][0] + c), v)
+        else:
+            out.append((c, v))
+    return out
+
+
+def _segs_equal(a, b, rterm):
+    a, b = _norm_segs(a, rterm), _norm_segs(b, rterm)
+    if len(a) != len(b):
+        return False if all(_known(c) and _known(v) for c, v in a + b) else None
+    res = True
+    for (c1, v1), (c2, v2) in zip(a, b):
+        for x, y in ((c1, c2), (v1, v2)):
+            r = _teq(x, y)
+            if r is False:
+                return False
+            if r is None:
+                res = None
+    return res
+
+
+_Q, _Z = sp.Symbol("Q", integer=True), sp.Symbol("Z", integer=True)
+
+
+def _qr(v, num, nch):
+    """name the quotient, remainder and [remainder != 0] of num by nchunks"""
+    def f(t):
+        return sp.expand(t.subs({_fdiv(num, nch): _Q, _fmod(num, nch): num - nch * _Q, _cdiv(num, nch): _Q + _Z})) if isinstance(t, sp.Basic) else t
+    return [(f(c), f(x)) for c, x in v]
+
+
 def chunking(chk, repo):
     fi = repo.func("esutil.algorithm.isplit")
     chk.analysed_unit(fi.qualname)
     q = fi.qualname
     fn = fi.node
-    env = {}
-    for x in walk_no_nested(fn):
-        if isinstance(x, ast.Assign):
-            env[norm(x.targets[0])] = x.value
-    dm = env.get("(neach_section, extras)")
-    qn, rn = "neach_section", "extras"
-    for k, v in env.items():
-        if isinstance(v, ast.Call) and call_name(v) == "divmod" and k.startswith("("):
-            dm = v
-            qn, rn = [s.strip() for s in k.strip("()").split(",")]
-    ok = dm is not None and [norm(a) for a in dm.args] == ["num", "nchunks"]
-    chk.ob("R20.isplit", q + "::divmod", ok, fi.where(), "(q, r) = divmod(num, nchunks)")
-    sizes = [v for k, v in env.items() if isinstance(v, ast.BinOp) and "[0]" in norm(v)]
-    want = "[0] + %s * [%s + 1] + (nchunks - %s) * [%s]" % (rn, qn, rn, qn)
-    ok = len(sizes) == 1 and norm(sizes[0]) == want
+    if len(fi.params) < 2:
+        raise AnalysisError("isplit lost its (num, nchunks) parameters")
+    pn, pc = fi.params[0], fi.params[1]
+    num, nch = sp.Symbol("num", integer=True), sp.Symbol("nchunks", integer=True)
+    evl = _IsplitEval({pn: num, pc: nch})
+    evl.run(fn.body)
+    tabs = [r for r in evl.ret if isinstance(r, _Tab)]
+    tab = tabs[0] if len(tabs) == 1 and len(evl.ret) == 1 else None
+    used = []
+    if tab is not None:
+        for f_, v in tab.fields.items():
+            if isinstance(v, tuple) and v[0] not in used:
+                used.append(v[0])
+    cum = used[0] if len(used) == 1 else (evl.cums[-1] if (not used and len(evl.cums) >= 1) else None)
+    segs = _qr(cum.segs, num, nch) if cum is not None else None
+    # quotient and remainder of num by nchunks
+    allterms = [t for cu in evl.cums for c, v in cu.segs for t in (c, v)] + [v for v in evl.env.values() if isinstance(v, sp.Basic)] \
+        + [t for v in evl.env.values() if isinstance(v, _Rep) for c, x in v.segs for t in (c, x)]
+    has_q = any(t.has(_fdiv(num, nch)) for t in allterms)
+    has_r = any(t.has(_fmod(num, nch)) for t in allterms)
+    wrong = evl.swapped or any(t.has(_fdiv(nch, num)) or t.has(_fmod(nch, num)) for t in allterms)
+    chk.ob("R20.isplit", q + "::divmod", True if (has_q and has_r and not wrong) else (False if wrong else None), fi.where(),
+           "the section sizes are built from the quotient and the remainder of num by nchunks (divmod(num, nchunks) or // and %)")
+    # sizes
+    lead = [(sp.Integer(1), sp.Integer(0))]
+    rx = sp.expand(num - nch * _Q)         # the remainder, by the divmod identity
+    want = [(rx, _Q + 1), (nch - rx, _Q)]
+    ok = None
+    has_lead = None
+    if segs is not None:
+        has_lead = bool(segs) and _teq(segs[0][0], 1) is True and _teq(segs[0][1], 0) is True
+        ok = _segs_equal(segs[1:] if has_lead else segs, want, rx)
     chk.ob("R20.isplit", q + "::section-sizes", ok, fi.where(),
-           "section sizes are [0] + r*[q+1] + (nchunks-r)*[q]: sizes differ by at most one, larger first, and sum to num by the divmod identity (found %s)" % [norm(s) for s in sizes])
-    dp = [k for k, v in env.items() if isinstance(v, ast.Call) and call_name(v) == "cumsum"]
-    chk.ob("R20.isplit", q + "::cumulative-division-points", len(dp) == 1, fi.where(), "division points are the cumulative sum of the sizes")
-    loops = [x for x in walk_no_nested(fn) if isinstance(x, ast.For)]
-    ok = False
-    if len(loops) == 1 and dp:
-        lp = loops[0]
-        i = norm(lp.target)
-        body = {norm(b.targets[0]): norm(b.value) for b in lp.body if isinstance(b, ast.Assign)}
-        ok = norm(lp.iter) == "range(nchunks)" and body == {"subs['start'][%s]" % i: "%s[%s]" % (dp[0], i), "subs['end'][%s]" % i: "%s[%s + 1]" % (dp[0], i)}
-    chk.ob("R20.isplit", q + "::contiguous-ranges", ok, fi.where(), "chunk i is [div[i], div[i+1]): contiguous, in order, covering 0..num")
+           "section sizes are r sections of q+1 followed by nchunks-r sections of q: sizes differ by at most one, larger first, and sum to num "
+           "by the divmod identity (found runs %s)" % ([(str(c), str(v)) for c, v in segs] if segs is not None else None))
+    # division points
+    okd = None
+    if cum is not None and used:
+        okd = bool(has_lead)
+    elif cum is not None and has_lead:
+        okd = True
+    chk.ob("R20.isplit", q + "::cumulative-division-points", okd, fi.where(), "division points are 0 followed by the cumulative sum of the sizes")
+    # ranges
+    okc = None
+    if tab is not None and set(tab.fields) >= {"start", "end"}:
+        s, e = tab.fields.get("start"), tab.fields.get("end")
+        if isinstance(s, tuple) and isinstance(e, tuple):
+            okc = s[0] is e[0] and _teq(s[1], 0) is True and _teq(e[1], 1) is True and _teq(tab.n, nch) is True
+    chk.ob("R20.isplit", q + "::contiguous-ranges", okc, fi.where(), "chunk i is [div[i], div[i+1]) for every i in 0..nchunks-1: contiguous, in order, covering 0..num")
     cfg = cfg_of(fi)
-    okr = any(("nchunks <= 0", "T") in rules.controlling_tests(cfg.view(), n) for n in rules.raise_nodes(cfg))
+    view = cfg.view()
+    rn = rules.raise_nodes(cfg)
+    okr = any(_facts(view, n) & {"%s <= 0" % pc, "%s < 1" % pc} for n in rn)
+    if not okr:
+        # False only when nothing at all can reject: no raise, no assert, nchunks handed to no package helper
+        elsewhere = [x for x in walk_no_nested(fn) if isinstance(x, ast.Assert) or (isinstance(x, ast.Call) and _callee(repo, fi, x) is not None
+                                                                               and any(isinstance(a, ast.Name) and a.id == pc for a in x.args))]
+        okr = None if (rn or elsewhere) else False
     chk.ob("R20.isplit", q + "::rejects-nonpositive-nchunks", okr, fi.where(), "nchunks <= 0 is rejected")
-    rets = [x for x in walk_no_nested(fn) if isinstance(x, ast.Return)]
-    chk.ob("R20.isplit", q + "::returns-subs", len(rets) == 1 and norm(rets[0].value) == "subs" and "nchunks" in norm(env.get("subs", ast.Constant(value=0))), fi.where(),
-           "returns the table of nchunks (start, end) ranges")
-    # splitarray
+    okt = None
+    if len(evl.ret) == 1:
+        okt = (tab is not None and _teq(tab.n, nch) is True) if (tab is not None or isinstance(evl.ret[0], (sp.Basic, _Rep, _Cum))) else None
+    chk.ob("R20.isplit", q + "::returns-subs", okt, fi.where(), "returns the table of nchunks (start, end) ranges")
+    splitarray(chk, repo)
+
+
+# ---------------------------------------------------------------------------
+# splitarray: the returned list as a sequence (index symbol, count, element term), whichever way it is built
+class _Slice:
+    def __init__(self, base, lo, hi):
+        self.base, self.lo, self.hi = base, lo, hi
+
+
+class _SplitEval(_Sx):
+    def __init__(self, env, fn):
+        _Sx.__init__(self, env)
+        self.fn = fn
+        self.busy = set()
+
+    def ev(self, e):
+        if isinstance(e, ast.Name) and e.id not in self.env:
+            sd = rules.single_defs(self.fn)
+            if e.id in sd and e.id not in self.busy:
+                self.busy.add(e.id)
+                try:
+                    v = self.ev(sd[e.id])
+                finally:
+                    self.busy.discard(e.id)
+                if isinstance(v, sp.Basic) and _known(v):
+                    return v
+            return self.sym(e.id)
+        return _Sx.ev(self, e)
+
+    def subscript(self, e):
+        if isinstance(e.slice, ast.Slice) and e.slice.step is None and isinstance(e.value, ast.Name):
+            lo = self.ev(e.slice.lower) if e.slice.lower is not None else sp.Integer(0)
+            hi = self.ev(e.slice.upper) if e.slice.upper is not None else None
+            return _Slice(e.value.id, lo, hi)
+        return _Sx.subscript(self, e)
+
+
+_ISYM = sp.Symbol("_i", integer=True)
+
+
+def _sequence(e, fn, depth=0):
+    """(count, element value in terms of _ISYM) for an expression that is a list built element by element, else None.
+    count: ('expr', ast) the loop runs over range(<ast>) | ('ceil', a, b) it runs over range(0, a, b)"""
+    if depth > 6 or e is None:
+        return None
+    if isinstance(e, ast.Call) and isinstance(e.func, ast.Name) and e.func.id == "range" and not e.keywords:
+        a = e.args
+        if len(a) == 1 or (len(a) == 2 and norm(a[0]) == "0"):
+            return ("expr", a[-1]), _ISYM
+        if len(a) == 3:
+            sx = _SplitEval({}, fn)
+            lo, hi, st = sx.ev(a[0]), sx.ev(a[1]), sx.ev(a[2])
+            if all(isinstance(x, sp.Basic) for x in (lo, hi, st)):
+                return ("ceil", sp.expand(hi - lo), st), lo + _ISYM * st
+        return None
+    if isinstance(e, ast.Call) and isinstance(e.func, ast.Name) and e.func.id in ("list", "tuple") and len(e.args) == 1 and not e.keywords:
+        return _sequence(e.args[0], fn, depth + 1)
+    if isinstance(e, (ast.ListComp, ast.GeneratorExp)) and len(e.generators) == 1:
+        g = e.generators[0]
+        if g.ifs or g.is_async or not isinstance(g.target, ast.Name):
+            return None
+        inner = _sequence(g.iter, fn, depth + 1)
+        if inner is None:
+            return None
+        return inner[0], _SplitEval({g.target.id: inner[1]}, fn).ev(e.elt)
+    if isinstance(e, ast.Name):
+        sd = rules.single_defs(fn)
+        if e.id in sd and not (isinstance(sd[e.id], ast.List) and not sd[e.id].elts):
+            return _sequence(sd[e.id], fn, depth + 1)
+        return _append_loop(e.id, fn, depth)
+    return None
+
+
+def _append_loop(name, fn, depth):
+    """name = []; for t in <sequence>: ...; name.append(x)"""
+    inits = [x for x in walk_no_nested(fn) if isinstance(x, ast.Assign) and any(norm(t) == name for t in x.targets)]
+    if len(inits) != 1 or not ((isinstance(inits[0].value, ast.List) and not inits[0].value.elts) or norm(inits[0].value) == "list()"):
+        return None
+    touches = [x for x in walk_no_nested(fn) if isinstance(x, ast.Call) and isinstance(x.func, ast.Attribute) and norm(x.func.value) == name]
+    other = [x for x in walk_no_nested(fn) if isinstance(x, (ast.AugAssign, ast.Delete, ast.Subscript)) and
+             ((isinstance(x, ast.AugAssign) and norm(x.target) == name) or (isinstance(x, ast.Subscript) and isinstance(x.ctx, (ast.Store, ast.Del)) and norm(x.value) == name))]
+    if len(touches) != 1 or touches[0].func.attr != "append" or len(touches[0].args) != 1 or other:
+        return None
+    app = touches[0]
+    loops = [x for x in walk_no_nested(fn) if isinstance(x, ast.For) and any(isinstance(s, ast.Expr) and s.value is app for s in x.body)]
+    if len(loops) != 1:
+        return None
+    lp = loops[0]
+    if lp.orelse or not isinstance(lp.target, ast.Name) or lp not in fn.body:
+        return None
+    if any(isinstance(x, (ast.If, ast.Continue, ast.Break, ast.For, ast.While, ast.Return, ast.Try, ast.With)) for s in lp.body for x in ast.walk(s)):
+        return None
+    inner = _sequence(lp.iter, fn, depth + 1)
+    if inner is None:
+        return None
+    sx = _SplitEval({lp.target.id: inner[1]}, fn)
+    for s in lp.body:
+        if isinstance(s, ast.Expr) and s.value is app:
+            return inner[0], sx.ev(app.args[0])
+        if isinstance(s, ast.Assign) and len(s.targets) == 1 and isinstance(s.targets[0], ast.Name):
+            sx.env[s.targets[0].id] = sx.ev(s.value)
+        elif isinstance(s, ast.Expr) and isinstance(s.value, ast.Constant):
+            continue
+        else:
+            return None
+    return None
+
+
+def _nonzero_test(t, sx, neg=False):
+    """(term, sense): the test holds exactly when term != 0 (sense True) or term == 0 (sense False); None if not of that form"""
+    if isinstance(t, ast.UnaryOp) and isinstance(t.op, ast.Not):
+        r = _nonzero_test(t.operand, sx)
+        return (r[0], not r[1]) if r else None
+    if isinstance(t, ast.Compare) and len(t.ops) == 1:
+        a, b = sx.ev(t.left), sx.ev(t.comparators[0])
+        if not (isinstance(a, sp.Basic) and isinstance(b, sp.Basic)):
+            return None
+        op = t.ops[0]
+        if b == 0 and isinstance(op, (ast.NotEq, ast.Gt)) or a == 0 and isinstance(op, (ast.NotEq, ast.Lt)):
+            # a remainder of a division by a positive count is never negative: > 0 is != 0
+            return (a if b == 0 else b, True)
+        if isinstance(op, ast.Eq) and (a == 0 or b == 0):
+            return (a if b == 0 else b, False)
+        if isinstance(op, ast.GtE) and b == 1:
+            return (a, True)
+        return None
+    v = sx.ev(t)
+    return (v, True) if isinstance(v, sp.Basic) else None
+
+
+def _ceil_count(count, fi, size, nper):
+    """is the loop count ceil(size / nper)?  True / False / None"""
+    fn = fi.node
+    want = _cdiv(size, nper)
+    floor_only = _fdiv(size, nper)
+    if count[0] == "ceil":
+        return True if _teq(_ceildiv(count[1], count[2]), want) is True else None
+    e = count[1]
+    sx = _SplitEval({}, fn)
+    if not isinstance(e, ast.Name) or e.id in rules.single_defs(fn):
+        v = sx.ev(e)
+        if not isinstance(v, sp.Basic):
+            return None
+        # False only for the plain quotient (a final shorter chunk would be dropped); any other closed form is not judged
+        return True if _teq(v, want) is True else (False if _teq(v, floor_only) is True else None)
+    # quotient, plus one exactly when the remainder is not zero
+    name = e.id
+    cfg = cfg_of(fi)
+    view = cfg.view()
+    defs = rules.assigns_to(cfg, name)
+    base, incs = [], []
+    for n in defs:
+        a = n.ast
+        if isinstance(a, ast.AugAssign) and isinstance(a.op, ast.Add) and norm(a.value) == "1":
+            incs.append(n)
+        elif isinstance(a, ast.Assign) and norm(a.value) in ("%s + 1" % name, "1 + %s" % name) and isinstance(a.targets[0], ast.Name):
+            incs.append(n)
+        elif isinstance(a, ast.Assign) and len(a.targets) == 1:
+            v = sx.ev(a.value)
+            t = a.targets[0]
+            if isinstance(t, (ast.Tuple, ast.List)):
+                idx = [i for i, x in enumerate(t.elts) if norm(x) == name]
+                v = v[idx[0]] if isinstance(v, tuple) and len(v) == len(t.elts) and len(idx) == 1 else None
+                # the other element of a divmod pair is the remainder under its own name
+                if isinstance(sx.ev(a.value), tuple):
+                    for i, x in enumerate(t.elts):
+                        if isinstance(x, ast.Name) and x.id != name and len(rules.assigns_to(cfg, x.id)) == 1:
+                            sx.env[x.id] = sx.ev(a.value)[i]
+            base.append((n, v))
+        else:
+            return None
+    if len(base) != 1 or not isinstance(base[0][1], sp.Basic):
+        return None
+    if _teq(base[0][1], floor_only) is not True:
+        return True if (_teq(base[0][1], want) is True and not incs) else None
+    if len(incs) != 1:
+        return False if not incs else None
+    inc = incs[0]
+    if not view.dominates(base[0][0], inc):
+        return None
+    ctl = [(bn, lab) for bn, lab in view.controlling_branches(inc) if bn.kind == "branch" or (bn.kind == "loop" and isinstance(bn.ast, ast.While))]
+    if len(ctl) != 1 or ctl[0][0].kind != "branch":
+        return False if not ctl else None
+    r = _nonzero_test(ctl[0][0].ast.test, sx)
+    if r is None:
+        return None
+    term, sense = r
+    if ctl[0][1] == "F":
+        sense = not sense
+    if _teq(term, _fmod(size, nper)) is not True:
+        return None                    # a test on something else than the remainder: not judged
+    return bool(sense)
+
+
+def splitarray(chk, repo):
     fi = repo.func("esutil.numpy_util.splitarray")
     chk.analysed_unit(fi.qualname)
     q = fi.qualname
     fn = fi.node
-    env = {}
+    if len(fi.params) < 2:
+        raise AnalysisError("splitarray lost its (nper, array) parameters")
+    pnper, pin = fi.params[0], fi.params[1]
+    var = []
     for x in walk_no_nested(fn):
-        if isinstance(x, ast.Assign):
-            env.setdefault(norm(x.targets[0]), []).append(norm(x.value))
-    var = [k for k, v in env.items() if any(s.startswith("np.atleast_1d(") for s in v)]
-    ok = len(var) == 1
-    v = var[0] if var else "var"
+        if isinstance(x, ast.Assign) and len(x.targets) == 1 and isinstance(x.targets[0], ast.Name) and isinstance(x.value, ast.Call) \
+                and call_name(x.value) == "atleast_1d" and x.value.args and norm(x.value.args[0]) in (pin, x.targets[0].id):
+            var.append(x.targets[0].id)
+    ok = len(set(var)) == 1
+    v = var[0] if var else pin
     chk.ob("R20.split", q + "::input-as-array", ok, fi.where(), "the input is viewed as an array (atleast_1d)")
-    ok = env.get("nchunks") == ["%s.size // nper" % v]
-    incs = [x for x in walk_no_nested(fn) if isinstance(x, ast.AugAssign) and norm(x.target) == "nchunks"]
-    cfg = cfg_of(fi)
-    view = cfg.view()
-    ok2 = False
-    if len(incs) == 1 and norm(incs[0].value) == "1":
-        n = rules.node_of_stmt(cfg, incs[0])
-        ok2 = rules.controlling_tests(view, n) == [("%s.size %% nper != 0" % v, "T")]
-    chk.ob("R20.split", q + "::chunk-count-is-ceil", ok and ok2, fi.where(), "nchunks = size // nper, plus one exactly when size % nper != 0 (ceiling division)")
-    loops = [x for x in walk_no_nested(fn) if isinstance(x, ast.For)]
-    ok = False
-    if len(loops) == 1:
-        lp = loops[0]
-        i = norm(lp.target)
-        b = {norm(s.targets[0]): norm(s.value) for s in lp.body if isinstance(s, ast.Assign)}
-        app = [s for s in lp.body if isinstance(s, ast.Expr) and isinstance(s.value, ast.Call) and call_name(s.value) == "append"]
-        sl = None
-        for k, val in b.items():
-            if val.startswith(v + "["):
-                sl = (k, val)
-        start = b.get("start", "")
-        end = b.get("end", "")
-        ok = norm(lp.iter) == "range(nchunks)" and start in ("%s * nper" % i, "nper * %s" % i) and end in ("(%s + 1) * nper" % i, "nper * (%s + 1)" % i) \
-            and sl is not None and sl[1] == "%s[start:end]" % v and len(app) == 1 and norm(app[0].value.args[0]) == sl[0] \
-            and not any(isinstance(x, (ast.If, ast.Continue, ast.Break)) for x in ast.walk(lp))
-    chk.ob("R20.split", q + "::consecutive-fixed-size-slices", ok, fi.where(), "chunk i is var[i*nper:(i+1)*nper], appended in order, none skipped")
+    size, nper = sp.Symbol(v + ".size", integer=True), sp.Symbol(pnper, integer=True)
     rets = [x for x in walk_no_nested(fn) if isinstance(x, ast.Return)]
-    chk.ob("R20.split", q + "::returns-chunk-list", len(rets) == 1 and norm(rets[0].value) == "chunks", fi.where(), "the list of chunks is returned")
+    seq = _sequence(rets[0].value, fn) if len(rets) == 1 else None
+    okn = _ceil_count(seq[0], fi, size, nper) if seq is not None else None
+    chk.ob("R20.split", q + "::chunk-count-is-ceil", okn, fi.where(), "the number of chunks is size // nper, plus one exactly when size % nper != 0 (ceiling division)")
+    oks = None
+    if seq is not None and isinstance(seq[1], _Slice) and seq[1].base == v:
+        el = seq[1]
+        lo = _teq(el.lo, _ISYM * nper)
+        hi = _teq(el.hi, (_ISYM + 1) * nper) if el.hi is not None else False
+        oks = None if (lo is None or hi is None) else bool(lo and hi)
+    chk.ob("R20.split", q + "::consecutive-fixed-size-slices", oks, fi.where(), "chunk i is %s[i*nper:(i+1)*nper], for i = 0, 1, ... in order, none skipped" % v)
+    chk.ob("R20.split", q + "::returns-chunk-list", True if seq is not None else None, fi.where(), "the list of chunks is what is returned")
